@@ -14,6 +14,19 @@ const (
 func (k Keeper) UpdateNSTBalance(
 	ctx sdk.Context, stakerID, assetID string, amount sdkmath.Int,
 ) error {
+	// all or nothing: the caller (the oracle's balance-change report) only logs an error, so an update that
+	// fails half way must not leave its first writes behind
+	cachedCtx, writeFunc := ctx.CacheContext()
+	if err := k.updateNSTBalance(cachedCtx, stakerID, assetID, amount); err != nil {
+		return err
+	}
+	writeFunc()
+	return nil
+}
+
+func (k Keeper) updateNSTBalance(
+	ctx sdk.Context, stakerID, assetID string, amount sdkmath.Int,
+) error {
 	if amount.IsPositive() {
 		// If the balance increases due to the client chain PoS staking reward, the increased
 		// amount can be considered a virtual deposit event. However, the increased amount needs
